@@ -21,7 +21,7 @@ from ixverif.spies import EventLog, Model
 LEVEL = 'model_checking'
 PID = 'C06'
 NAMES = ['a', 'b', 'c']
-CONTAINERS = ['list', 'tuple', 'set', 'frozenset', 'dict_keys']
+CONTAINERS = ['list', 'tuple', 'set', 'frozenset', 'dict_keys', 'ndarray']
 
 
 def row(i):
@@ -41,6 +41,9 @@ def container(kind, subset):
         return set(subset)
     if kind == 'frozenset':
         return frozenset(subset)
+    if kind == 'ndarray':       # a legal iterable (e.g. names selected with a boolean mask); its truth value is NOT "non-empty"
+        import numpy as np
+        return np.array(sorted(subset), dtype=str if subset else object)
     return {k: None for k in subset}.keys()
 
 
@@ -340,7 +343,7 @@ def main(rep):
     rep.add(states=max(1, states), transitions=rep.counts['evaluations'])
     rep.note(tasks=len(tasks))
     rep.assume("rows are pairwise distinct in every feature, so the stored row an imputed value stems from is "
-               "identified", "subset containers are re-iterable (list, tuple, set, frozenset, dict keys view)",
+               "identified", "subset containers are re-iterable (list, tuple, set, frozenset, dict keys view, NumPy array)",
                "the storage is non-empty at impute time")
     return rep.finish(
         rule="A: full product incl. all draw outcomes; B: all operation histories up to length L x all draw "
